@@ -106,6 +106,73 @@ theorem cfb_decPar_b2b (C : Cipher) (iv : Bytes) (chunk garbage : List Bytes) (h
       | cons g gs => simp only [List.length_cons, Nat.add_right_cancel_iff] at hg; simp [ih gs hg]
   simp only [Mem.Cfb.decPar, hin, Cfb.decPar, zipWith_xorIn2Out_out]
 
+/-! ### whole calls on many blocks (`*_blocks_inout` / `*_blocks` / `*_blocks_b2b`) -/
+
+/-- a many-block call is the single-block body on each in/out block in turn; if the body is alias-independent, so
+    is the call: in place on `blocks`, or from `blocks` into output blocks holding arbitrary `garbage`, the bytes
+    written and the final chaining state are those of the value-level fold. -/
+theorem blocks_alias_indep {σ : Type} {mem : σ → IOB → IOB × σ} {pure : σ → Bytes → Bytes × σ}
+    (h : AliasIndep mem pure) : ∀ (blocks garbage : List Bytes) (s : σ), garbage.length = blocks.length →
+      (((Mem.foldIO mem s (blocks.map IOB.inplace)).1.map (·.out), (Mem.foldIO mem s (blocks.map IOB.inplace)).2)
+          = Glue.foldBlocks pure s blocks) ∧
+      (((Mem.foldIO mem s (List.zipWith IOB.b2b blocks garbage)).1.map (·.out),
+          (Mem.foldIO mem s (List.zipWith IOB.b2b blocks garbage)).2) = Glue.foldBlocks pure s blocks) := by
+  intro blocks
+  induction blocks with
+  | nil => intro garbage s _; simp [Mem.foldIO, Glue.foldBlocks]
+  | cons b bs ih =>
+    intro garbage s hg
+    match garbage, hg with
+    | g :: gs, hg =>
+      have hg' : gs.length = bs.length := by simpa using hg
+      obtain ⟨h1, h2⟩ := h s b g
+      have e1 : (mem s (IOB.inplace b)).1.out = (pure s b).1 := congrArg Prod.fst h1
+      have e2 : (mem s (IOB.inplace b)).2 = (pure s b).2 := congrArg Prod.snd h1
+      have e3 : (mem s (IOB.b2b b g)).1.out = (pure s b).1 := congrArg Prod.fst h2
+      have e4 : (mem s (IOB.b2b b g)).2 = (pure s b).2 := congrArg Prod.snd h2
+      obtain ⟨i1, i2⟩ := ih gs (pure s b).2 hg'
+      constructor
+      · simp only [List.map_cons, Mem.foldIO, Glue.foldBlocks, e1, e2]
+        rw [← i1]
+      · simp only [List.zipWith_cons_cons, Mem.foldIO, Glue.foldBlocks, List.map_cons, e3, e4]
+        rw [← i2]
+
+/-- instances: every block-mode direction (CBC, PCBC, IGE, CFB, CFB-8, OFB), sequential path. -/
+theorem all_block_modes_many_blocks (C : Cipher) (blocks garbage : List Bytes) (hg : garbage.length = blocks.length) :
+    (∀ iv, ((Mem.foldIO (Mem.Cbc.encBlock C) iv (List.zipWith IOB.b2b blocks garbage)).1.map (·.out))
+        = (Mem.foldIO (Mem.Cbc.encBlock C) iv (blocks.map IOB.inplace)).1.map (·.out)) ∧
+    (∀ iv, ((Mem.foldIO (Mem.Cbc.decBlock C) iv (List.zipWith IOB.b2b blocks garbage)).1.map (·.out))
+        = (Mem.foldIO (Mem.Cbc.decBlock C) iv (blocks.map IOB.inplace)).1.map (·.out)) ∧
+    (∀ iv, ((Mem.foldIO (Mem.Pcbc.encBlock C) iv (List.zipWith IOB.b2b blocks garbage)).1.map (·.out))
+        = (Mem.foldIO (Mem.Pcbc.encBlock C) iv (blocks.map IOB.inplace)).1.map (·.out)) ∧
+    (∀ iv, ((Mem.foldIO (Mem.Pcbc.decBlock C) iv (List.zipWith IOB.b2b blocks garbage)).1.map (·.out))
+        = (Mem.foldIO (Mem.Pcbc.decBlock C) iv (blocks.map IOB.inplace)).1.map (·.out)) ∧
+    (∀ s, ((Mem.foldIO (Mem.Ige.encBlock C) s (List.zipWith IOB.b2b blocks garbage)).1.map (·.out))
+        = (Mem.foldIO (Mem.Ige.encBlock C) s (blocks.map IOB.inplace)).1.map (·.out)) ∧
+    (∀ s, ((Mem.foldIO (Mem.Ige.decBlock C) s (List.zipWith IOB.b2b blocks garbage)).1.map (·.out))
+        = (Mem.foldIO (Mem.Ige.decBlock C) s (blocks.map IOB.inplace)).1.map (·.out)) ∧
+    (∀ iv, ((Mem.foldIO (Mem.Cfb.encBlock C) iv (List.zipWith IOB.b2b blocks garbage)).1.map (·.out))
+        = (Mem.foldIO (Mem.Cfb.encBlock C) iv (blocks.map IOB.inplace)).1.map (·.out)) ∧
+    (∀ iv, ((Mem.foldIO (Mem.Cfb.decBlock C) iv (List.zipWith IOB.b2b blocks garbage)).1.map (·.out))
+        = (Mem.foldIO (Mem.Cfb.decBlock C) iv (blocks.map IOB.inplace)).1.map (·.out)) ∧
+    (∀ iv, ((Mem.foldIO (Mem.Cfb8.encBlock C) iv (List.zipWith IOB.b2b blocks garbage)).1.map (·.out))
+        = (Mem.foldIO (Mem.Cfb8.encBlock C) iv (blocks.map IOB.inplace)).1.map (·.out)) ∧
+    (∀ iv, ((Mem.foldIO (Mem.Cfb8.decBlock C) iv (List.zipWith IOB.b2b blocks garbage)).1.map (·.out))
+        = (Mem.foldIO (Mem.Cfb8.decBlock C) iv (blocks.map IOB.inplace)).1.map (·.out)) ∧
+    (∀ iv, ((Mem.foldIO (Mem.Ofb.encBlock C) iv (List.zipWith IOB.b2b blocks garbage)).1.map (·.out))
+        = (Mem.foldIO (Mem.Ofb.encBlock C) iv (blocks.map IOB.inplace)).1.map (·.out)) := by
+  have key : ∀ {σ : Type} {mem : σ → IOB → IOB × σ} {pure : σ → Bytes → Bytes × σ} (_ : AliasIndep mem pure) (s : σ),
+      ((Mem.foldIO mem s (List.zipWith IOB.b2b blocks garbage)).1.map (·.out))
+        = (Mem.foldIO mem s (blocks.map IOB.inplace)).1.map (·.out) := by
+    intro σ mem pure h s
+    obtain ⟨h1, h2⟩ := blocks_alias_indep h blocks garbage s hg
+    have e1 := congrArg Prod.fst h1
+    have e2 := congrArg Prod.fst h2
+    simp only at e1 e2
+    rw [e1, e2]
+  exact ⟨key (cbc_enc C), key (cbc_dec C), key (pcbc_enc C), key (pcbc_dec C), key (ige_enc C), key (ige_dec C),
+    key (cfb_enc C), key (cfb_dec C), key (cfb8_enc C), key (cfb8_dec C), key (ofb C)⟩
+
 /-! ### ciphertext stealing: the twelve closures of cts/src/{cbc,ecb}_cs{1,2,3}.rs on the flat in/out buffer
 
   `Impl/MemCts.lean` mirrors the closures and cts/src/lib.rs statement by statement on `IOBuf` (block loops with
